@@ -8,6 +8,8 @@ import (
 	"bytes"
 	"encoding/binary"
 	"fmt"
+	"slices"
+	"sort"
 	"strings"
 	"testing"
 
@@ -446,9 +448,14 @@ func (m *machine) sweep(where string) {
 					m.checkIdxAll(w, ri, sm.ReadOnly(m.idx, v), c)
 					m.checkIdxRecent(w, ri, sm.ReadOnly(m.idx, v), c)
 				}
+				m.checkJournal(w, ri, v)
 			}
 			done()
 		}
+	}
+	// the live store: the journal of every committed version, and nothing for the version after (e.g. one removed by a rollback)
+	for v := uint64(1); v <= m.state.Version()+1; v++ {
+		m.checkJournal(where+"[sweep live store]", m.top, v)
 	}
 }
 
@@ -519,6 +526,48 @@ func (m *machine) closeStore() {
 	m.top = nil
 }
 
+// checkJournal compares StateChangeKeys(v) (all keys, and restricted to one table) with the keys the commit of version v
+// touched in the model; with journaling off, and for versions that do not exist (any more), it must say "not available"
+func (m *machine) checkJournal(where string, r lib.RIndexerI, v uint64) {
+	keys, available, err := r.StateChangeKeys(v, nil)
+	if err != nil {
+		m.t.Fatalf("%s: StateChangeKeys(%d): %v", where, v, err)
+	}
+	if !m.cfg.StoreConfig.StateChangeJournalEnabled || v > m.state.Version() {
+		if available || len(keys) != 0 {
+			m.t.Fatalf("%s: StateChangeKeys(%d) reports a journal of %d keys (journaling on: %v, committed version: %d)\nhistory: %s", where, v, len(keys), m.cfg.StoreConfig.StateChangeJournalEnabled, m.state.Version(), m.ec.Descriptor())
+		}
+		return
+	}
+	var got []string
+	for _, k := range keys {
+		got = append(got, string(k))
+	}
+	sort.Strings(got)
+	want := m.state.TouchedAt(v)
+	name := func(l []string) (o []string) {
+		for _, k := range l {
+			o = append(o, keyName([]byte(k)))
+		}
+		return
+	}
+	if !available || !slices.Equal(got, want) {
+		m.t.Fatalf("%s: StateChangeKeys(%d) available=%v\n  store: %v\n  model: %v\nhistory: %s", where, v, available, name(got), name(want), m.ec.Descriptor())
+	}
+	tb := tables[int(v)%len(tables)]
+	p := lib.JoinLenPrefix(tb.first)
+	sub, _, err := r.StateChangeKeys(v, p)
+	n := 0
+	for _, k := range want {
+		if bytes.HasPrefix([]byte(k), p) {
+			n++
+		}
+	}
+	if err != nil || len(sub) != n {
+		m.t.Fatalf("%s: StateChangeKeys(%d, table %s) = %d keys (%v), the commit touched %d keys of that table\nhistory: %s", where, v, keyName(p), len(sub), err, n, m.ec.Descriptor())
+	}
+}
+
 // commit commits the top-level store and the model and re-asks the recorded historical answers
 func (m *machine) commit() {
 	t := m.t
@@ -536,6 +585,7 @@ func (m *machine) commit() {
 	if !bytes.Equal(root, want) {
 		t.Fatalf("Commit() root %x, reference commitment of the model state %x", root, want)
 	}
+	m.checkJournal(fmt.Sprintf("after commit %d", m.state.Version()), m.top, m.state.Version())
 	m.reask(fmt.Sprintf("after commit %d", m.state.Version()))
 }
 
@@ -544,6 +594,9 @@ func (m *machine) commit() {
 func runCase(t *rapid.T, ec *ev.Case) bool {
 	cfg := lib.DefaultConfig()
 	cfg.StoreConfig.LSSCompactionInterval = 0 // no background compaction goroutine: compaction is an explicit operation of the history
+	cfg.StoreConfig.StateChangeJournalEnabled = rapid.Bool().Draw(t, "stateChangeJournal")
+	ec.Desc("journal=%v", cfg.StoreConfig.StateChangeJournalEnabled)
+	ec.ClassIf(cfg.StoreConfig.StateChangeJournalEnabled, "state-change-journal=on")
 	m := &machine{t: t, ec: ec, fs: vfs.NewMem(), cfg: cfg, state: sm.NewVMap(), idx: sm.NewVMap(), memo: map[memoKey]string{}}
 	m.sv, m.iv = sm.NewView(m.state, sm.Latest), sm.NewView(m.idx, sm.Latest)
 	m.open()
